@@ -461,27 +461,1212 @@ theorem collected_is_queued (c : Cfg) (hk : c.keepOnNone = true) (nodes : List (
   rw [this, g1, e1]
 
 
-/-- **`seq_increasing_partial`** = `subTick_seq`: per subscription the queued notifications always carry
-consecutive sequence numbers ending at the last one handed out, every tick only appends the successor,
-and (`pairUp_msgs`) they leave oldest first — so the sequence numbers a client sees per subscription
-increase by one.  Missing for the full statement: the composition of these per-subscription facts into
-an invariant over whole session histories (the per-subscription "last emitted" ghost). -/
+/-- `seq_increasing_partial` = `subTick_seq`: the per-tick form of the sequence-number invariant (queued
+notifications carry consecutive numbers, a tick only appends the successor).  Superseded by
+`seq_increasing` below, which states the property on the `sent` log of whole histories. -/
 theorem seq_increasing_partial (c : Cfg) (nodes : List (Nat × Nat)) (now : Nat) (t rq : Bool) (s s' : Subn)
     (hi : SeqInv s) (h : subTick c nodes now t rq s = .ok s') : SeqInv s' :=
   subTick_seq c nodes now t rq s s' hi h
 
-/-- **`delivery_exact_partial`** = `collected_is_queued`: while publishing is enabled and the
-subscription is not expiring, whatever the monitored items hand over on an elapsed interval is appended
-to the subscription's queue (never dropped, whether or not a request is queued); with `pairUp_msgs`
-(queue → transmission in order) and `responses_pair` (transmission → responses in order) every
-collected value reaches the client once, in order.  Missing for the full statement: the end-to-end
-ghost-log invariant `sampled = delivered ++ in flight` over whole histories including the item queues
-(C24 overflow discards) — the three links are proved separately, not composed. -/
+/-- **`delivery_exact_partial`** = `collected_is_queued`, the entry link of delivery: while publishing is
+enabled and the subscription is not expiring, whatever the monitored items hand over on an elapsed
+interval is appended to the subscription's queue (never dropped, whether or not a request is queued).
+From there on `delivery_exact_flow` (below, over whole histories) shows that it keeps its place in
+sent ++ queued responses ++ subscription queue for ever.  Still missing for the statement per *item*:
+the ghost log of the values sampled into the item queues (with the C24 overflow discards) and its
+composition with these two theorems. -/
 theorem delivery_exact_partial (c : Cfg) (hk : c.keepOnNone = true) (nodes : List (Nat × Nat)) (now : Nat)
     (rq : Bool) (s s' : Subn) (m : Msg) (hen : s.enabled = true) (hx : ¬ Expiring s)
     (hm : (collectStep nodes now (elapsedStep now true s).2 (elapsedStep now true s).1).2 = some m)
     (h : subTick c nodes now true rq s = .ok s') : s'.notifs = s.notifs ++ [m] :=
   collected_is_queued c hk nodes now rq s s' m hen hx hm h
+
+/-! ### end to end: the flow of a subscription only grows at its end -/
+
+/-- the queued notifications of subscription `sid` (none if it does not exist) -/
+def notifsOf (subs : List Subn) (sid : Nat) : List Msg :=
+  match getSub subs sid with
+  | some s => s.notifs
+  | none => []
+
+def transMsgs (t : List (Nat × Req × Msg)) (sid : Nat) : List Msg :=
+  (t.filter (fun e => e.1 = sid)).map (·.2.2)
+
+def respMsgs (rs : List Resp) (sid : Nat) : List Msg :=
+  (rs.filter (fun r => r.subId = sid)).map (·.msg)
+
+def sentMsgs (sent : List (Nat × Msg)) (sid : Nat) : List Msg :=
+  (sent.filter (fun p => p.1 = sid)).map (·.2)
+
+/-- everything of subscription `sid` that was handed to the transport, is queued as a response, or is
+still queued in the subscription — in this order -/
+def flow (g : G) (sid : Nat) : List Msg :=
+  sentMsgs g.sent sid ++ respMsgs g.ss.resps sid ++ notifsOf g.ss.subs sid
+
+theorem getSub_updSub (subs : List Subn) (s : Subn) (sid : Nat) :
+    getSub (updSub subs s) sid =
+      if sid = s.id then (if hasSub subs sid then some s else none) else getSub subs sid := by
+  induction subs with
+  | nil => simp [updSub, getSub, hasSub]
+  | cons t rest ih =>
+    unfold updSub getSub hasSub at *
+    simp only [List.map_cons, List.find?_cons, List.any_cons]
+    by_cases h1 : t.id = s.id
+    · by_cases h2 : sid = s.id
+      · subst h2; simp [h1]
+      · have : ¬ t.id = sid := by omega
+        have h3 : ¬ s.id = sid := fun e => h2 e.symm
+        simp only [h1, if_true, h3, decide_false, h2, if_false, this]
+        simpa [h2] using ih
+    · by_cases h2 : sid = s.id
+      · subst h2
+        simp only [h1, if_false, decide_false, Bool.false_or, if_true]
+        simpa using ih
+      · simp only [h1, if_false, h2]
+        by_cases h3 : t.id = sid
+        · simp [h3]
+        · simp only [h3, decide_false]
+          simpa [h2] using ih
+
+theorem getSub_none_iff (subs : List Subn) (sid : Nat) : getSub subs sid = none ↔ hasSub subs sid = false := by
+  unfold getSub hasSub
+  induction subs with
+  | nil => simp
+  | cons t rest ih =>
+    by_cases h : t.id = sid <;> simp [List.find?_cons, h, ih]
+
+theorem getSub_id (subs : List Subn) (sid : Nat) (s : Subn) (h : getSub subs sid = some s) : s.id = sid := by
+  unfold getSub at h
+  have := List.find?_some h
+  simpa using this
+
+theorem notifsOf_updSub (subs : List Subn) (s : Subn) (sid : Nat) :
+    notifsOf (updSub subs s) sid = if sid = s.id ∧ hasSub subs sid = true then s.notifs else notifsOf subs sid := by
+  unfold notifsOf
+  rw [getSub_updSub]
+  by_cases h : sid = s.id
+  · subst h
+    by_cases h2 : hasSub subs s.id = true
+    · simp [h2]
+    · have : getSub subs s.id = none := (getSub_none_iff subs s.id).mpr (by simpa using h2)
+      simp [h2, this]
+  · simp [h]
+
+theorem getSub_filter_ne (subs : List Subn) (id sid : Nat) :
+    getSub (subs.filter (fun t => t.id ≠ id)) sid = if sid = id then none else getSub subs sid := by
+  unfold getSub
+  induction subs with
+  | nil => simp
+  | cons t rest ih =>
+    by_cases h1 : t.id = id
+    · rw [List.filter_cons_of_neg (by simpa using h1), ih]
+      by_cases h2 : sid = id
+      · simp [h2]
+      · have : ¬ t.id = sid := by omega
+        simp [h2, List.find?_cons, this]
+    · rw [List.filter_cons_of_pos (by simpa using h1)]
+      simp only [List.find?_cons]
+      by_cases h3 : t.id = sid
+      · have : ¬ sid = id := by omega
+        simp [h3, this]
+      · simp only [h3, decide_false]
+        exact ih
+
+theorem notifsOf_filter_ne (subs : List Subn) (id sid : Nat) :
+    notifsOf (subs.filter (fun t => t.id ≠ id)) sid = if sid = id then [] else notifsOf subs sid := by
+  unfold notifsOf
+  rw [getSub_filter_ne]
+  by_cases h : sid = id <;> simp [h]
+
+theorem getSub_map (subs : List Subn) (f : Subn → Subn) (hf : ∀ s, (f s).id = s.id) (sid : Nat) :
+    getSub (subs.map f) sid = (getSub subs sid).map f := by
+  unfold getSub
+  induction subs with
+  | nil => rfl
+  | cons t rest ih =>
+    simp only [List.map_cons, List.find?_cons, hf]
+    by_cases h : t.id = sid
+    · simp [h]
+    · simp only [h, decide_false]; exact ih
+
+theorem notifsOf_map (subs : List Subn) (f : Subn → Subn) (hf : ∀ s, (f s).id = s.id)
+    (hn : ∀ s, (f s).notifs = s.notifs) (sid : Nat) : notifsOf (subs.map f) sid = notifsOf subs sid := by
+  unfold notifsOf
+  rw [getSub_map subs f hf]
+  cases getSub subs sid <;> simp [hn]
+
+theorem notifsOf_append_new (subs : List Subn) (s : Subn) (hs : s.notifs = []) (sid : Nat) :
+    notifsOf (subs ++ [s]) sid = notifsOf subs sid := by
+  unfold notifsOf getSub
+  rw [List.find?_append]
+  cases h : List.find? (fun t => decide (t.id = sid)) subs with
+  | some x => simp
+  | none =>
+    simp only [Option.none_or, List.find?_cons]
+    by_cases h2 : s.id = sid <;> simp [h2, hs]
+
+theorem elapsedStep_id (now : Nat) (t : Bool) (s : Subn) :
+    (elapsedStep now t s).1.notifs = s.notifs ∧ (elapsedStep now t s).1.id = s.id := by
+  unfold elapsedStep
+  split
+  · simp
+  · split
+    · simp
+    · split
+      · simp
+      · split <;> simp
+
+theorem collectStep_id (nodes : List (Nat × Nat)) (now : Nat) (el : Bool) (s : Subn) :
+    (collectStep nodes now el s).1.notifs = s.notifs ∧ (collectStep nodes now el s).1.id = s.id := by
+  unfold collectStep
+  split
+  · simp
+  · simp only []
+    split <;> simp
+
+theorem updateState_id (c : Cfg) (s : Subn) (rpr : Bool) (p : Params) :
+    (updateState c s rpr p).1.notifs = s.notifs ∧ (updateState c s rpr p).1.id = s.id := by
+  unfold updateState
+  split
+  · simp
+  · split <;> (repeat' split) <;> simp [resetLife, resetKa, startTimer]
+
+theorem enqueue_appends (s s' : Subn) (m : Msg) (h : enqueueNotification s m = .ok s') :
+    s'.notifs = s.notifs ++ [m] ∧ s'.id = s.id := by
+  unfold enqueueNotification at h
+  split at h
+  · cases h
+  · cases h; exact ⟨rfl, rfl⟩
+
+theorem handleStateResult_appends (c : Cfg) (now : Nat) (s s' : Subn) (a : Action) (n : Option Msg)
+    (h : handleStateResult c now s a n = .ok s') : ∃ l, s'.notifs = s.notifs ++ l ∧ s'.id = s.id := by
+  have enq : ∀ (u : Subn) (m : Msg), u.notifs = s.notifs → u.id = s.id → enqueueNotification u m = .ok s' →
+      ∃ l, s'.notifs = s.notifs ++ l ∧ s'.id = s.id := by
+    intro u m h1 h2 h
+    obtain ⟨e1, e2⟩ := enqueue_appends u s' m h
+    exact ⟨[m], by rw [e1, h1], by rw [e2, h2]⟩
+  cases a with
+  | none =>
+    cases n with
+    | none => simp only [handleStateResult] at h; cases h; exact ⟨[], by simp, rfl⟩
+    | some m =>
+      simp only [handleStateResult] at h
+      split at h
+      · exact enq s m rfl rfl h
+      · cases h; exact ⟨[], by simp, rfl⟩
+  | keepAlive =>
+    cases n with
+    | none => simp only [handleStateResult] at h; refine enq _ _ ?_ ?_ h <;> rfl
+    | some m => simp only [handleStateResult] at h; refine enq _ _ ?_ ?_ h <;> rfl
+  | notifications =>
+    cases n with
+    | none => simp only [handleStateResult] at h; cases h; exact ⟨[], by simp, rfl⟩
+    | some m => simp only [handleStateResult] at h; exact enq s m rfl rfl h
+  | created =>
+    cases n with
+    | none => simp only [handleStateResult] at h; cases h; exact ⟨[], by simp, rfl⟩
+    | some m => simp [handleStateResult] at h
+  | expired =>
+    cases n with
+    | none => simp only [handleStateResult] at h; refine enq _ _ ?_ ?_ h <;> rfl
+    | some m =>
+      simp only [handleStateResult] at h
+      split at h
+      · refine enq _ _ ?_ ?_ h <;> rfl
+      · cases h
+
+/-- a tick of a subscription only appends to its queue of notifications -/
+theorem subTick_appends (c : Cfg) (nodes : List (Nat × Nat)) (now : Nat) (t rq : Bool) (s s' : Subn)
+    (h : subTick c nodes now t rq s = .ok s') : ∃ l, s'.notifs = s.notifs ++ l ∧ s'.id = s.id := by
+  unfold subTick at h
+  simp only [] at h
+  obtain ⟨a1, a2⟩ := elapsedStep_id now t s
+  obtain ⟨b1, b2⟩ := collectStep_id nodes now (elapsedStep now t s).2 (elapsedStep now t s).1
+  generalize collectStep nodes now (elapsedStep now t s).2 (elapsedStep now t s).1 = cs at h b1 b2
+  obtain ⟨s2, n⟩ := cs
+  simp only [] at h b1 b2
+  split at h
+  · obtain ⟨l, e1, e2⟩ := handleStateResult_appends c now _ s' _ _ h
+    have hf := fun p => updateState_id c s2 (!t) p
+    exact ⟨l, by rw [e1, (hf _).1, b1, a1], by rw [e2, (hf _).2, b2, a2]⟩
+  · cases h; exact ⟨[], by simp [b1, a1], by rw [b2, a2]⟩
+
+theorem transMsgs_append (a b : List (Nat × Req × Msg)) (sid : Nat) :
+    transMsgs (a ++ b) sid = transMsgs a sid ++ transMsgs b sid := by
+  simp [transMsgs, List.filter_append]
+
+theorem pairUp_transMsgs (sid sid' : Nat) (reqs : List Req) (ms : List Msg) (acc : List (Nat × Req × Msg)) :
+    transMsgs (pairUp sid reqs ms acc).2.2 sid' ++ (if sid' = sid then (pairUp sid reqs ms acc).2.1 else [])
+      = transMsgs acc sid' ++ (if sid' = sid then ms else []) := by
+  induction reqs generalizing ms acc with
+  | nil => cases ms <;> simp [pairUp]
+  | cons r reqs ih =>
+    cases ms with
+    | nil => simp [pairUp]
+    | cons m ms =>
+      simp only [pairUp]
+      rw [ih, transMsgs_append]
+      by_cases h : sid' = sid
+      · subst h; simp [transMsgs]
+      · have : ¬ sid = sid' := fun e => h e.symm
+        simp [transMsgs, h, this]
+
+/-- what is on its way for subscription `sid` inside a tick: already handed to the transmission queue,
+or still queued in the subscription -/
+def pend (ss : Sess) (trans : List (Nat × Req × Msg)) (sid : Nat) : List Msg :=
+  transMsgs trans sid ++ notifsOf ss.subs sid
+
+theorem visit_flow (c : Cfg) (t : Bool) (sid : Nat) (ids : List Nat) (ss ss' : Sess)
+    (trans trans' : List (Nat × Req × Msg)) (h : visit c t ids ss trans = .ok (ss', trans')) :
+    (∃ l, pend ss' trans' sid = pend ss trans sid ++ l) ∧ ss'.resps = ss.resps := by
+  induction ids generalizing ss trans with
+  | nil => simp only [visit] at h; cases h; exact ⟨⟨[], by simp⟩, rfl⟩
+  | cons id ids ih =>
+    simp only [visit] at h
+    split at h
+    · cases h
+    · rename_i s hs
+      split at h
+      · cases h
+      · rename_i s1 h1
+        obtain ⟨⟨l2, e2⟩, r2⟩ := ih _ _ h
+        refine ⟨?_, by simpa using r2⟩
+        obtain ⟨l1, n1, i1⟩ := subTick_appends c ss.nodes ss.now t (!ss.reqs.isEmpty) s s1 h1
+        have hid : s.id = id := getSub_id _ _ _ hs
+        have hhas : hasSub ss.subs id = true := by
+          cases hh : hasSub ss.subs id with
+          | true => rfl
+          | false => rw [(getSub_none_iff _ _).mpr hh] at hs; cases hs
+        have hpu := pairUp_transMsgs id sid ss.reqs s1.notifs trans
+        refine ⟨(if sid = id then l1 else []) ++ l2, ?_⟩
+        rw [e2]
+        simp only [pend] at *
+        by_cases hsid : sid = id
+        · subst hsid
+          simp only [if_true] at hpu ⊢
+          have hn0 : notifsOf ss.subs sid = s.notifs := by simp [notifsOf, hs]
+          have hnew : notifsOf (if s1.state = SState.closed ∧ (pairUp sid ss.reqs s1.notifs trans).2.1.isEmpty = true
+              then ss.subs.filter (fun t => t.id ≠ sid)
+              else updSub ss.subs { s1 with notifs := (pairUp sid ss.reqs s1.notifs trans).2.1 }) sid
+              = (pairUp sid ss.reqs s1.notifs trans).2.1 := by
+            split
+            · rename_i hc
+              rw [notifsOf_filter_ne]
+              simp only [if_true]
+              exact (List.isEmpty_iff.mp hc.2).symm
+            · rw [notifsOf_updSub]
+              simp [i1, hid, hhas]
+          skip
+          rw [hnew, hpu, hn0, n1]
+          simp
+        · simp only [hsid, if_false, List.append_nil, List.nil_append] at hpu ⊢
+          have hnew : notifsOf (if s1.state = SState.closed ∧ (pairUp id ss.reqs s1.notifs trans).2.1.isEmpty = true
+              then ss.subs.filter (fun t => t.id ≠ id)
+              else updSub ss.subs { s1 with notifs := (pairUp id ss.reqs s1.notifs trans).2.1 }) sid
+              = notifsOf ss.subs sid := by
+            split
+            · rw [notifsOf_filter_ne]; simp [hsid]
+            · rw [notifsOf_updSub]
+              have : ¬ sid = s1.id := by rw [i1, hid]; exact hsid
+              simp [this]
+          skip
+          rw [hnew, hpu]
+
+theorem transmit_flow (trans : List (Nat × Req × Msg)) (ss : Sess) (sid : Nat) :
+    respMsgs (transmit trans ss).resps sid = respMsgs ss.resps sid ++ transMsgs trans sid ∧
+    (transmit trans ss).subs = ss.subs := by
+  induction trans generalizing ss with
+  | nil => simp [transmit, transMsgs]
+  | cons x rest ih =>
+    obtain ⟨sd, r, m⟩ := x
+    simp only [transmit]
+    obtain ⟨e1, e2⟩ := ih { ss with
+      retrans := insertKey (sd, m.seq) m ss.retrans,
+      resps := ss.resps ++ [{ reqId := r.id, subId := sd, avail := availSeqs ss.retrans sd,
+                              more := rest.any (fun e => e.1 = sd), msg := m, results := r.results }] }
+    refine ⟨?_, e2⟩
+    rw [e1]
+    by_cases h : sd = sid <;> simp [respMsgs, transMsgs, List.filter_append, List.filter_cons, h]
+
+/-- the part of the flow that lives in the session -/
+def inSess (ss : Sess) (sid : Nat) : List Msg := respMsgs ss.resps sid ++ notifsOf ss.subs sid
+
+/-- **One tick of the session only appends to the flow of every subscription**: what was queued as a
+response or in the subscription stays, in the same order (moving from the subscription to the responses),
+and newly produced notifications come after it. -/
+theorem sessTick_flow (c : Cfg) (t : Bool) (ss ss' : Sess) (sid : Nat) (h : sessTick c t ss = .ok ss') :
+    ∃ l, inSess ss' sid = inSess ss sid ++ l := by
+  unfold sessTick at h
+  split at h
+  · cases h
+  · rename_i s1 trans hv
+    cases h
+    obtain ⟨⟨l, e1⟩, e2⟩ := visit_flow c t sid _ ss s1 [] trans hv
+    obtain ⟨f1, f2⟩ := transmit_flow trans s1 sid
+    refine ⟨l, ?_⟩
+    simp only [inSess]
+    rw [f1, f2, e2, List.append_assoc]
+    simp only [pend, transMsgs, List.filter_nil, List.map_nil, List.nil_append] at e1
+    show respMsgs ss.resps sid ++ (transMsgs trans sid ++ notifsOf s1.subs sid) = _
+    simp only [transMsgs]
+    rw [e1, List.append_assoc]
+
+theorem publish_flow (c : Cfg) (ss ss' : Sess) (rid : Nat) (acks : Option (List (Nat × Nat))) (res : PubRes)
+    (sid : Nat) (h : publish c ss rid acks = .ok (ss', res)) : ∃ l, inSess ss' sid = inSess ss sid ++ l := by
+  unfold publish at h
+  split at h
+  · cases h; exact ⟨[], by simp⟩
+  · simp only [] at h
+    split at h
+    · cases h
+    · rename_i s1 hpre
+      have h1 : ∃ l, inSess s1 sid = inSess ss sid ++ l := by
+        split at hpre
+        · exact sessTick_flow c false ss s1 sid hpre
+        · cases hpre; exact ⟨[], by simp⟩
+      obtain ⟨l1, e1⟩ := h1
+      split at h
+      · cases h; exact ⟨l1, e1⟩
+      · split at h
+        · cases h
+        · rename_i s2 ht
+          cases h
+          obtain ⟨l2, e2⟩ := sessTick_flow c false _ _ sid ht
+          refine ⟨l1 ++ l2, ?_⟩
+          rw [e2, ← List.append_assoc, ← e1]
+          cases acks <;> rfl
+
+theorem notifsOf_updSub_same (subs : List Subn) (k : Nat) (s s2 : Subn) (sid : Nat)
+    (hs : getSub subs k = some s) (hi : s2.id = s.id) (hn : s2.notifs = s.notifs) :
+    notifsOf (updSub subs s2) sid = notifsOf subs sid := by
+  rw [notifsOf_updSub]
+  by_cases h : sid = s2.id ∧ hasSub subs sid = true
+  · rw [if_pos h]
+    have hk : s.id = k := getSub_id _ _ _ hs
+    have : sid = k := by rw [h.1, hi, hk]
+    subst this
+    simp [notifsOf, hs, hn]
+  · rw [if_neg h]
+
+theorem flow_eq (g : G) (sid : Nat) : flow g sid = sentMsgs g.sent sid ++ inSess g.ss sid := by
+  simp [flow, inSess, List.append_assoc]
+
+/-- one operation of the history only appends to the flow of a subscription (unless it deletes it) -/
+theorem gstep_flow (c : Cfg) (maxQ : Nat) (g g' : G) (op : Op) (sid : Nat) (hd : op ≠ .deleteSub sid)
+    (h : gstep c maxQ g op = some g') : ∃ l, flow g' sid = flow g sid ++ l := by
+  have same : ∀ (ss' : Sess), inSess ss' sid = inSess g.ss sid →
+      ∃ l, flow { g with ss := ss' } sid = flow g sid ++ l := by
+    intro ss' e; exact ⟨[], by simp [flow_eq, e]⟩
+  cases op with
+  | createSub p i k l e =>
+    simp only [gstep] at h; cases h
+    apply same
+    simp only [inSess, createSub]
+    rw [notifsOf_append_new _ _ rfl]
+  | deleteSub sid' =>
+    simp only [gstep] at h; cases h
+    apply same
+    have hne : ¬ sid = sid' := fun e => hd (by rw [e])
+    unfold deleteSub
+    split
+    · simp only [inSess]; rw [notifsOf_filter_ne]; simp [hne]
+    · rfl
+  | setPublishing sid' e =>
+    simp only [gstep] at h; cases h
+    apply same
+    unfold setPublishing
+    split
+    · simp only [inSess]
+      rw [notifsOf_map]
+      · intro s; split <;> rfl
+      · intro s; split <;> rfl
+    · rfl
+  | createItem sid' hd' n q d m sp =>
+    simp only [gstep] at h; cases h
+    apply same
+    unfold createItem
+    split
+    · rfl
+    · rename_i s hs
+      simp only []
+      split
+      · simp only [inSess]; refine congrArg (respMsgs g.ss.resps sid ++ ·) (notifsOf_updSub_same _ _ _ _ _ hs ?_ ?_) <;> rfl
+      · simp only [inSess]; refine congrArg (respMsgs g.ss.resps sid ++ ·) (notifsOf_updSub_same _ _ _ _ _ hs ?_ ?_) <;> rfl
+  | deleteItem sid' iid =>
+    simp only [gstep] at h; cases h
+    apply same
+    unfold deleteItem
+    split
+    · rfl
+    · rename_i s hs
+      simp only []
+      split
+      · simp only [inSess]; refine congrArg (respMsgs g.ss.resps sid ++ ·) (notifsOf_updSub_same _ _ _ _ _ hs ?_ ?_) <;> rfl
+      · simp only [inSess]; refine congrArg (respMsgs g.ss.resps sid ++ ·) (notifsOf_updSub_same _ _ _ _ _ hs ?_ ?_) <;> rfl
+  | write n v => simp only [gstep] at h; cases h; exact same _ rfl
+  | timer dt =>
+    simp only [gstep] at h
+    split at h
+    · rename_i ss' ht
+      cases h
+      obtain ⟨l, e⟩ := sessTick_flow c true _ ss' sid ht
+      exact ⟨l, by simp only [flow_eq]; rw [e]; simp [inSess, List.append_assoc]⟩
+    · cases h
+  | publish rid acks =>
+    simp only [gstep] at h
+    split at h
+    · rename_i ss' hp
+      cases h
+      obtain ⟨l, e⟩ := publish_flow c _ _ rid acks _ sid hp
+      exact ⟨l, by simp only [flow_eq]; rw [e]; simp [List.append_assoc]⟩
+    · rename_i ss' r hne hp
+      cases h
+      obtain ⟨l, e⟩ := publish_flow c _ _ rid acks _ sid hp
+      exact ⟨l, by simp only [flow_eq]; rw [e]; simp [List.append_assoc]⟩
+    · cases h
+  | republish sid' seq =>
+    simp only [gstep] at h; cases h
+    apply same
+    unfold republish
+    split
+    · simp only [inSess]
+      rw [notifsOf_map]
+      · intro s; split <;> rfl
+      · intro s; split <;> rfl
+    · rfl
+  | take =>
+    simp only [gstep, takeResponses] at h; cases h
+    refine ⟨[], ?_⟩
+    simp [flow, sentMsgs, respMsgs, List.filter_append, List.filter_map, Function.comp_def, List.map_map]
+
+/-- **`delivery_exact_flow`, over every history**: for a subscription that the history does not delete,
+the flow — messages handed to the transport, then queued responses, then the subscription's own queue —
+only grows at its end.  A notification that entered the subscription's queue (`collected_is_queued`:
+every notification built from what the monitored items handed over does) keeps its position for ever:
+it is never dropped, duplicated or reordered on its way to the client. -/
+theorem delivery_exact_flow (c : Cfg) (maxQ : Nat) (sid : Nat) (ops : List Op) (g g' : G)
+    (hd : Op.deleteSub sid ∉ ops) (h : grun c maxQ g ops = some g') :
+    ∃ l, flow g' sid = flow g sid ++ l := by
+  induction ops generalizing g with
+  | nil => simp only [grun] at h; cases h; exact ⟨[], by simp⟩
+  | cons op ops ih =>
+    simp only [grun] at h
+    split at h
+    · rename_i g1 hs
+      obtain ⟨l1, e1⟩ := gstep_flow c maxQ g g1 op sid (fun e => hd (by rw [e]; exact List.mem_cons_self)) hs
+      obtain ⟨l2, e2⟩ := ih g1 (fun hm => hd (List.mem_cons_of_mem _ hm)) h
+      exact ⟨l1 ++ l2, by rw [e2, e1, List.append_assoc]⟩
+    · cases h
+
+
+/-! ### sequence numbers over whole histories -/
+
+/-- the sequence-number part of what `handle_state_result` is entered with -/
+def NumPre (s : Subn) (n : Option Msg) : Prop :=
+  match n with
+  | none => s.seqNext = s.lastSeq + 1
+  | some m => m.seq = s.lastSeq + 1 ∧ s.seqNext = m.seq + 1
+
+/-- a step leaves the queue alone or appends one message carrying the next sequence number -/
+def Grow (s s' : Subn) : Prop :=
+  s'.id = s.id ∧ s'.seqNext = s'.lastSeq + 1 ∧
+  ((s'.notifs = s.notifs ∧ s'.lastSeq = s.lastSeq) ∨
+   (∃ m, s'.notifs = s.notifs ++ [m] ∧ m.seq = s.lastSeq + 1 ∧ s'.lastSeq = s.lastSeq + 1))
+
+theorem enqueue_grow (s0 s s' : Subn) (m : Msg) (hi : s.id = s0.id) (hn : s.notifs = s0.notifs)
+    (hl : s.lastSeq = s0.lastSeq) (hs : s.seqNext = m.seq + 1) (h : enqueueNotification s m = .ok s') :
+    Grow s0 s' := by
+  unfold enqueueNotification at h
+  split at h
+  · cases h
+  · rename_i hne
+    cases h
+    refine ⟨hi, by simp [hs], Or.inr ⟨m, by simp [hn], by omega, by simp; omega⟩⟩
+
+theorem handleStateResult_grow (c : Cfg) (now : Nat) (s s' : Subn) (a : Action) (n : Option Msg)
+    (hp : NumPre s n) (h : handleStateResult c now s a n = .ok s') : Grow s s' := by
+  cases a with
+  | none =>
+    cases n with
+    | none => simp only [handleStateResult] at h; cases h; exact ⟨rfl, hp, Or.inl ⟨rfl, rfl⟩⟩
+    | some m =>
+      simp only [handleStateResult] at h
+      simp only [NumPre] at hp
+      split at h
+      · exact enqueue_grow s s s' m rfl rfl rfl hp.2 h
+      · cases h; exact ⟨rfl, by simp [hp.1], Or.inl ⟨rfl, rfl⟩⟩
+  | keepAlive =>
+    cases n with
+    | none => simp only [handleStateResult] at h; refine enqueue_grow s _ s' _ ?_ ?_ ?_ ?_ h <;> rfl
+    | some m => simp only [handleStateResult] at h; refine enqueue_grow s _ s' _ ?_ ?_ ?_ ?_ h <;> rfl
+  | notifications =>
+    cases n with
+    | none => simp only [handleStateResult] at h; cases h; exact ⟨rfl, hp, Or.inl ⟨rfl, rfl⟩⟩
+    | some m =>
+      simp only [handleStateResult] at h
+      simp only [NumPre] at hp
+      exact enqueue_grow s s s' m rfl rfl rfl hp.2 h
+  | created =>
+    cases n with
+    | none => simp only [handleStateResult] at h; cases h; exact ⟨rfl, hp, Or.inl ⟨rfl, rfl⟩⟩
+    | some m => simp [handleStateResult] at h
+  | expired =>
+    cases n with
+    | none => simp only [handleStateResult] at h; refine enqueue_grow s _ s' _ ?_ ?_ ?_ ?_ h <;> rfl
+    | some m =>
+      simp only [handleStateResult] at h
+      split at h
+      · refine enqueue_grow s _ s' _ ?_ ?_ ?_ ?_ h <;> rfl
+      · cases h
+
+theorem elapsedStep_nums (now : Nat) (t : Bool) (s : Subn) :
+    (elapsedStep now t s).1.notifs = s.notifs ∧ (elapsedStep now t s).1.id = s.id ∧
+    (elapsedStep now t s).1.lastSeq = s.lastSeq ∧ (elapsedStep now t s).1.seqNext = s.seqNext := by
+  unfold elapsedStep
+  split
+  · simp
+  · split
+    · simp
+    · split
+      · simp
+      · split <;> simp
+
+theorem collectStep_nums (nodes : List (Nat × Nat)) (now : Nat) (el : Bool) (s : Subn)
+    (h : s.seqNext = s.lastSeq + 1) :
+    (collectStep nodes now el s).1.notifs = s.notifs ∧ (collectStep nodes now el s).1.id = s.id ∧
+    (collectStep nodes now el s).1.lastSeq = s.lastSeq ∧
+    NumPre (collectStep nodes now el s).1 (collectStep nodes now el s).2 := by
+  unfold collectStep
+  split
+  · exact ⟨rfl, rfl, rfl, h⟩
+  · simp only []
+    split
+    · exact ⟨rfl, rfl, rfl, h⟩
+    · exact ⟨rfl, rfl, rfl, by simp [NumPre, h]⟩
+
+/-- one tick of a subscription leaves its queue alone or appends one message with the next sequence
+number; the counters stay in step -/
+theorem subTick_grow (c : Cfg) (nodes : List (Nat × Nat)) (now : Nat) (t rq : Bool) (s s' : Subn)
+    (hs : s.seqNext = s.lastSeq + 1) (h : subTick c nodes now t rq s = .ok s') : Grow s s' := by
+  unfold subTick at h
+  simp only [] at h
+  obtain ⟨a1, a2, a3, a4⟩ := elapsedStep_nums now t s
+  obtain ⟨b1, b2, b3, b4⟩ := collectStep_nums nodes now (elapsedStep now t s).2 (elapsedStep now t s).1
+    (by rw [a4, a3]; exact hs)
+  generalize collectStep nodes now (elapsedStep now t s).2 (elapsedStep now t s).1 = cs at h b1 b2 b3 b4
+  obtain ⟨s2, n⟩ := cs
+  simp only [] at h b1 b2 b3 b4
+  have lift : ∀ u : Subn, u.id = s2.id → u.notifs = s2.notifs → u.lastSeq = s2.lastSeq → Grow u s' → Grow s s' := by
+    intro u h1 h2 h3 hg
+    obtain ⟨g1, g2, g3⟩ := hg
+    refine ⟨by rw [g1, h1, b2, a2], g2, ?_⟩
+    rcases g3 with ⟨e1, e2⟩ | ⟨m, e1, e2, e3⟩
+    · exact Or.inl ⟨by rw [e1, h2, b1, a1], by rw [e2, h3, b3, a3]⟩
+    · exact Or.inr ⟨m, by rw [e1, h2, b1, a1], by rw [e2, h3, b3, a3], by rw [e3, h3, b3, a3]⟩
+  split at h
+  · have hf := fun p => updateState_frame c s2 (!t) p
+    refine lift _ (hf _).2.2.2.2.2 (hf _).1 (hf _).2.1 (handleStateResult_grow c now _ s' _ n ?_ h)
+    cases n with
+    | none => simp only [NumPre] at b4 ⊢; rw [(hf _).2.2.1, (hf _).2.1]; exact b4
+    | some m => simp only [NumPre] at b4 ⊢; rw [(hf _).2.2.1, (hf _).2.1]; exact b4
+  · have e : s2 = s' := by cases h; rfl
+    subst e
+    cases n with
+    | none => exact lift s2 rfl rfl rfl ⟨rfl, b4, Or.inl ⟨rfl, rfl⟩⟩
+    | some m => rename_i hc; simp at hc
+
+theorem chain_append_iff (a : Nat) (x y : List Nat) :
+    chain a (x ++ y) ↔ chain a x ∧ chain (a + x.length) y := by
+  induction x generalizing a with
+  | nil => simp [chain]
+  | cons b bs ih =>
+    simp only [List.cons_append, chain, List.length_cons, ih]
+    constructor
+    · rintro ⟨h1, h2, h3⟩; subst h1; exact ⟨⟨rfl, h2⟩, by rw [show a + (bs.length + 1) = a + 1 + bs.length by omega]; exact h3⟩
+    · rintro ⟨⟨h1, h2⟩, h3⟩; subst h1; exact ⟨rfl, h2, by rw [show a + 1 + bs.length = a + (bs.length + 1) by omega]; exact h3⟩
+
+/-- the numbering invariant of subscription `sid` inside a tick; `pre` = what already left the
+subscription and the transmission queue (sent and queued responses) -/
+def Num (pre : List Msg) (ss : Sess) (trans : List (Nat × Req × Msg)) (sid : Nat) : Prop :=
+  chain 0 ((pre ++ pend ss trans sid).map (·.seq)) ∧
+  ∀ s, getSub ss.subs sid = some s → (pre ++ pend ss trans sid).length = s.lastSeq ∧ s.seqNext = s.lastSeq + 1
+
+/-- the subscriptions after one subscription was visited (as written in `visit`) -/
+def stepSubs (subs : List Subn) (id : Nat) (s1 : Subn) (ms : List Msg) : List Subn :=
+  if s1.state = SState.closed ∧ ms.isEmpty = true then subs.filter (fun t => t.id ≠ id)
+  else updSub subs { s1 with notifs := ms }
+
+def stepSess (ss : Sess) (reqs : List Req) (subs' : List Subn) : Sess := { ss with reqs := reqs, subs := subs' }
+
+theorem visit_num (c : Cfg) (t : Bool) (sid : Nat) (pre : List Msg) (ids : List Nat) (ss ss' : Sess)
+    (trans trans' : List (Nat × Req × Msg)) (h : visit c t ids ss trans = .ok (ss', trans'))
+    (hn : Num pre ss trans sid) :
+    Num pre ss' trans' sid ∧
+    (getSub ss.subs sid = none → getSub ss'.subs sid = none ∧ pend ss' trans' sid = pend ss trans sid) := by
+  induction ids generalizing ss trans with
+  | nil => simp only [visit] at h; cases h; exact ⟨hn, fun h => ⟨h, rfl⟩⟩
+  | cons id ids ih =>
+    simp only [visit] at h
+    split at h
+    · cases h
+    · rename_i s hs
+      split at h
+      · cases h
+      · rename_i s1 h1
+        have hid : s.id = id := getSub_id _ _ _ hs
+        have hhas : hasSub ss.subs id = true := by
+          cases hh : hasSub ss.subs id with
+          | true => rfl
+          | false => rw [(getSub_none_iff _ _).mpr hh] at hs; cases hs
+        have hpu := pairUp_transMsgs id sid ss.reqs s1.notifs trans
+        have i1 : s1.id = s.id := (subTick_appends c _ _ _ _ s s1 h1).choose_spec.2
+        have h' : visit c t ids (stepSess ss (pairUp id ss.reqs s1.notifs trans).1
+            (stepSubs ss.subs id s1 (pairUp id ss.reqs s1.notifs trans).2.1))
+            (pairUp id ss.reqs s1.notifs trans).2.2 = .ok (ss', trans') := h
+        by_cases hsid : sid = id
+        · subst hsid
+          obtain ⟨hc, hl⟩ := hn
+          obtain ⟨hlen, hsn⟩ := hl s hs
+          obtain ⟨g1, g2, g3⟩ := subTick_grow c ss.nodes ss.now t (!ss.reqs.isEmpty) s s1 hsn h1
+          have hn0 : notifsOf ss.subs sid = s.notifs := by simp [notifsOf, hs]
+          simp only [if_true] at hpu
+          have hno : notifsOf (stepSubs ss.subs sid s1 (pairUp sid ss.reqs s1.notifs trans).2.1) sid
+              = (pairUp sid ss.reqs s1.notifs trans).2.1 := by
+            unfold stepSubs
+            split
+            · rename_i hcl
+              rw [notifsOf_filter_ne]; simp only [if_true]
+              exact (List.isEmpty_iff.mp hcl.2).symm
+            · rw [notifsOf_updSub]; simp [g1, hid, hhas]
+          have hget : ∀ u, getSub (stepSubs ss.subs sid s1 (pairUp sid ss.reqs s1.notifs trans).2.1) sid = some u →
+              u.lastSeq = s1.lastSeq ∧ u.seqNext = s1.seqNext := by
+            intro u hu
+            unfold stepSubs at hu
+            split at hu
+            · rw [getSub_filter_ne] at hu; simp at hu
+            · rw [getSub_updSub] at hu
+              simp only [g1, hid, if_true, hhas] at hu
+              cases hu; exact ⟨rfl, rfl⟩
+          have hp : pend (stepSess ss (pairUp sid ss.reqs s1.notifs trans).1
+              (stepSubs ss.subs sid s1 (pairUp sid ss.reqs s1.notifs trans).2.1))
+              (pairUp sid ss.reqs s1.notifs trans).2.2 sid = transMsgs trans sid ++ s1.notifs := by
+            simp only [pend, stepSess]; rw [hno, hpu]
+          simp only [pend, hn0] at hc hlen
+          have hstep : Num pre (stepSess ss (pairUp sid ss.reqs s1.notifs trans).1
+              (stepSubs ss.subs sid s1 (pairUp sid ss.reqs s1.notifs trans).2.1))
+              (pairUp sid ss.reqs s1.notifs trans).2.2 sid := by
+            rw [Num, hp]
+            rcases g3 with ⟨e1, e2⟩ | ⟨m, e1, e2, e3⟩
+            · refine ⟨by rw [e1]; exact hc, fun u hu => ?_⟩
+              obtain ⟨u1, u2⟩ := hget u hu
+              rw [u1, u2, e1, e2]; exact ⟨hlen, by rw [← e2]; exact g2⟩
+            · have hre : pre ++ (transMsgs trans sid ++ (s.notifs ++ [m])) =
+                  (pre ++ (transMsgs trans sid ++ s.notifs)) ++ [m] := by simp
+              refine ⟨?_, fun u hu => ?_⟩
+              · rw [e1, hre, List.map_append, chain_append_iff]
+                refine ⟨hc, ?_⟩
+                simp only [List.map_cons, List.map_nil, chain, and_true, List.length_map]
+                rw [hlen, e2]; omega
+              · obtain ⟨u1, u2⟩ := hget u hu
+                rw [u1, u2, e1]
+                refine ⟨?_, g2⟩
+                rw [hre, List.length_append, hlen, e3]; simp
+          obtain ⟨r1, r2⟩ := ih _ _ h' hstep
+          exact ⟨r1, fun hnone => by rw [hs] at hnone; cases hnone⟩
+        · -- another subscription is visited: nothing of `sid` changes
+          simp only [hsid, if_false, List.append_nil] at hpu
+          have hne : ¬ sid = s1.id := by rw [i1, hid]; exact hsid
+          have hget : getSub (stepSubs ss.subs id s1 (pairUp id ss.reqs s1.notifs trans).2.1) sid
+              = getSub ss.subs sid := by
+            unfold stepSubs
+            split
+            · rw [getSub_filter_ne]; simp [hsid]
+            · rw [getSub_updSub]; simp [hne]
+          have hpend : pend (stepSess ss (pairUp id ss.reqs s1.notifs trans).1
+              (stepSubs ss.subs id s1 (pairUp id ss.reqs s1.notifs trans).2.1))
+              (pairUp id ss.reqs s1.notifs trans).2.2 sid = pend ss trans sid := by
+            simp only [pend, notifsOf, stepSess]
+            rw [hget, hpu]
+          have hstep : Num pre (stepSess ss (pairUp id ss.reqs s1.notifs trans).1
+              (stepSubs ss.subs id s1 (pairUp id ss.reqs s1.notifs trans).2.1))
+              (pairUp id ss.reqs s1.notifs trans).2.2 sid := by
+            rw [Num, hpend]
+            exact ⟨hn.1, fun u hu => hn.2 u (by rw [← hget]; exact hu)⟩
+          obtain ⟨r1, r2⟩ := ih _ _ h' hstep
+          refine ⟨r1, fun hnone => ?_⟩
+          obtain ⟨q1, q2⟩ := r2 (by show getSub (stepSubs ss.subs id s1 _) sid = none; rw [hget]; exact hnone)
+          exact ⟨q1, by rw [q2, hpend]⟩
+
+/-- the numbering invariant of subscription `sid` between ticks; `pre` = what was handed to the transport -/
+def NumS (pre : List Msg) (ss : Sess) (sid : Nat) : Prop :=
+  chain 0 ((pre ++ inSess ss sid).map (·.seq)) ∧
+  ∀ s, getSub ss.subs sid = some s → (pre ++ inSess ss sid).length = s.lastSeq ∧ s.seqNext = s.lastSeq + 1
+
+theorem sessTick_num (c : Cfg) (t : Bool) (ss ss' : Sess) (sid : Nat) (pre : List Msg)
+    (h : sessTick c t ss = .ok ss') (hn : NumS pre ss sid) :
+    NumS pre ss' sid ∧
+    (getSub ss.subs sid = none → getSub ss'.subs sid = none ∧ inSess ss' sid = inSess ss sid) := by
+  unfold sessTick at h
+  split at h
+  · cases h
+  · rename_i s1 trans hv
+    cases h
+    have hn0 : Num (pre ++ respMsgs ss.resps sid) ss [] sid := by
+      obtain ⟨c1, c2⟩ := hn
+      simp only [inSess] at c1 c2
+      refine ⟨by simpa [pend, transMsgs, List.append_assoc] using c1, fun s hs => ?_⟩
+      have := c2 s hs
+      simpa [pend, transMsgs, List.append_assoc] using this
+    obtain ⟨⟨d1, d2⟩, d3⟩ := visit_num c t sid _ _ ss s1 [] trans hv hn0
+    obtain ⟨f1, f2⟩ := transmit_flow trans s1 sid
+    have hr : s1.resps = ss.resps := (visit_flow c t sid _ ss s1 [] trans hv).2
+    have hin : inSess { transmit trans s1 with retrans := cleanup (transmit trans s1).subs (transmit trans s1).retrans } sid
+        = respMsgs ss.resps sid ++ pend s1 trans sid := by
+      simp only [inSess, pend]
+      rw [f1, f2, hr, List.append_assoc]
+    refine ⟨⟨?_, fun s hs => ?_⟩, fun hnone => ?_⟩
+    · rw [hin, ← List.append_assoc]; exact d1
+    · rw [hin, ← List.append_assoc]
+      exact d2 s (by simpa [f2] using hs)
+    · obtain ⟨q1, q2⟩ := d3 hnone
+      refine ⟨by simpa [f2] using q1, ?_⟩
+      rw [hin, q2]
+      simp [pend, transMsgs, inSess]
+
+theorem publish_num (c : Cfg) (ss ss' : Sess) (rid : Nat) (acks : Option (List (Nat × Nat))) (res : PubRes)
+    (sid : Nat) (pre : List Msg) (h : publish c ss rid acks = .ok (ss', res)) (hn : NumS pre ss sid) :
+    NumS pre ss' sid ∧
+    (getSub ss.subs sid = none → getSub ss'.subs sid = none ∧ inSess ss' sid = inSess ss sid) := by
+  unfold publish at h
+  split at h
+  · cases h; exact ⟨hn, fun h => ⟨h, rfl⟩⟩
+  · simp only [] at h
+    split at h
+    · cases h
+    · rename_i s1 hpre
+      have h1 : NumS pre s1 sid ∧
+          (getSub ss.subs sid = none → getSub s1.subs sid = none ∧ inSess s1 sid = inSess ss sid) := by
+        split at hpre
+        · exact sessTick_num c false ss s1 sid pre hpre hn
+        · cases hpre; exact ⟨hn, fun h => ⟨h, rfl⟩⟩
+      obtain ⟨n1, k1⟩ := h1
+      split at h
+      · cases h; exact ⟨n1, k1⟩
+      · split at h
+        · cases h
+        · rename_i s2 ht
+          cases h
+          have hmid : ∀ (rt : List ((Nat × Nat) × Msg)) (rq : List Req),
+              NumS pre { s1 with retrans := rt, reqs := rq } sid := fun _ _ => n1
+          cases acks with
+          | none =>
+            obtain ⟨n2, k2⟩ := sessTick_num c false _ _ sid pre ht (hmid _ _)
+            refine ⟨n2, fun hnone => ?_⟩
+            obtain ⟨a1, a2⟩ := k1 hnone
+            obtain ⟨b1, b2⟩ := k2 a1
+            exact ⟨b1, by rw [b2]; exact a2⟩
+          | some as =>
+            obtain ⟨n2, k2⟩ := sessTick_num c false _ _ sid pre ht (hmid _ _)
+            refine ⟨n2, fun hnone => ?_⟩
+            obtain ⟨a1, a2⟩ := k1 hnone
+            obtain ⟨b1, b2⟩ := k2 a1
+            exact ⟨b1, by rw [b2]; exact a2⟩
+
+theorem visit_next (c : Cfg) (t : Bool) (ids : List Nat) (ss ss' : Sess)
+    (trans trans' : List (Nat × Req × Msg)) (h : visit c t ids ss trans = .ok (ss', trans')) :
+    ss'.nextSubId = ss.nextSubId := by
+  induction ids generalizing ss trans with
+  | nil => simp only [visit] at h; cases h; rfl
+  | cons id ids ih =>
+    simp only [visit] at h
+    split at h
+    · cases h
+    · split at h
+      · cases h
+      · simpa using ih _ _ h
+
+theorem transmit_next (trans : List (Nat × Req × Msg)) (ss : Sess) :
+    (transmit trans ss).nextSubId = ss.nextSubId := by
+  induction trans generalizing ss with
+  | nil => rfl
+  | cons x rest ih => obtain ⟨a, b, c⟩ := x; simp only [transmit]; rw [ih]
+
+theorem sessTick_next (c : Cfg) (t : Bool) (ss ss' : Sess) (h : sessTick c t ss = .ok ss') :
+    ss'.nextSubId = ss.nextSubId := by
+  unfold sessTick at h
+  split at h
+  · cases h
+  · rename_i s1 trans hv
+    cases h
+    simp only [transmit_next]
+    exact visit_next c t _ ss s1 [] trans hv
+
+theorem publish_next (c : Cfg) (ss ss' : Sess) (rid : Nat) (acks : Option (List (Nat × Nat))) (res : PubRes)
+    (h : publish c ss rid acks = .ok (ss', res)) : ss'.nextSubId = ss.nextSubId := by
+  unfold publish at h
+  split at h
+  · cases h; rfl
+  · simp only [] at h
+    split at h
+    · cases h
+    · rename_i s1 hpre
+      have h1 : s1.nextSubId = ss.nextSubId := by
+        split at hpre
+        · exact sessTick_next c false ss s1 hpre
+        · cases hpre; rfl
+      split at h
+      · cases h; exact h1
+      · split at h
+        · cases h
+        · rename_i s2 ht
+          cases h
+          rw [sessTick_next c false _ _ ht]
+          cases acks <;> exact h1
+
+/-- the invariant of a whole session history -/
+def INV (g : G) : Prop :=
+  (∀ sid, NumS (sentMsgs g.sent sid) g.ss sid) ∧
+  (∀ sid, g.ss.nextSubId ≤ sid → getSub g.ss.subs sid = none ∧ flow g sid = [])
+
+theorem getSub_append_new (subs : List Subn) (s : Subn) (sid : Nat) :
+    getSub (subs ++ [s]) sid = (getSub subs sid).or (if s.id = sid then some s else none) := by
+  unfold getSub
+  rw [List.find?_append]
+  by_cases h : s.id = sid <;> simp [List.find?_cons, h]
+
+/-- an operation that changes neither the queues nor the counters of any subscription keeps the invariant -/
+theorem INV_of_frame (g : G) (ss' : Sess) (hi : INV g)
+    (h1 : ∀ sid, inSess ss' sid = inSess g.ss sid)
+    (h2 : ∀ sid s', getSub ss'.subs sid = some s' →
+      ∃ s, getSub g.ss.subs sid = some s ∧ s'.lastSeq = s.lastSeq ∧ s'.seqNext = s.seqNext)
+    (h3 : ∀ sid, getSub g.ss.subs sid = none → getSub ss'.subs sid = none)
+    (h4 : ss'.nextSubId = g.ss.nextSubId) : INV { g with ss := ss' } := by
+  obtain ⟨i1, i2⟩ := hi
+  refine ⟨fun sid => ?_, fun sid hle => ?_⟩
+  · obtain ⟨c1, c2⟩ := i1 sid
+    refine ⟨by simp only []; rw [h1]; exact c1, fun s' hs' => ?_⟩
+    obtain ⟨s, e1, e2, e3⟩ := h2 sid s' hs'
+    simp only []
+    rw [h1, e2, e3]; exact c2 s e1
+  · obtain ⟨f1, f2⟩ := i2 sid (by rw [← h4]; exact hle)
+    refine ⟨h3 sid f1, ?_⟩
+    rw [flow_eq] at f2 ⊢
+    simp only []
+    rw [h1]; exact f2
+
+theorem chain_prefix (a : Nat) (x y : List Nat) (h : chain a (x ++ y)) : chain a x :=
+  ((chain_append_iff a x y).mp h).1
+
+theorem gstep_INV (c : Cfg) (maxQ : Nat) (g g' : G) (op : Op) (hi : INV g)
+    (h : gstep c maxQ g op = some g') : INV g' := by
+  cases op with
+  | createSub p i k l e =>
+    simp only [gstep] at h; cases h
+    obtain ⟨i1, i2⟩ := hi
+    have hin : ∀ sid, inSess (createSub g.ss p i k l e).1 sid = inSess g.ss sid := by
+      intro sid; simp only [inSess, createSub]; rw [notifsOf_append_new _ _ rfl]
+    refine ⟨fun sid => ?_, fun sid hle => ?_⟩
+    · obtain ⟨c1, c2⟩ := i1 sid
+      refine ⟨by simp only []; rw [hin]; exact c1, fun s' hs' => ?_⟩
+      simp only [] at hs' ⊢
+      rw [hin]
+      simp only [createSub] at hs'
+      rw [getSub_append_new] at hs'
+      cases hg : getSub g.ss.subs sid with
+      | some s => rw [hg] at hs'; simp at hs'; subst hs'; exact c2 s hg
+      | none =>
+        rw [hg] at hs'
+        simp only [Option.none_or] at hs'
+        split at hs'
+        · rename_i hid
+          cases hs'
+          obtain ⟨_, f2⟩ := i2 sid (by omega)
+          rw [flow_eq] at f2
+          simp [f2]
+        · cases hs'
+    · simp only [createSub] at hle ⊢
+      obtain ⟨f1, f2⟩ := i2 sid (by omega)
+      refine ⟨?_, ?_⟩
+      · rw [getSub_append_new, f1]
+        have : ¬ g.ss.nextSubId = sid := by omega
+        simp [this]
+      · rw [flow_eq] at f2 ⊢
+        have := hin sid
+        simp only [createSub] at this
+        simp only []; rw [this]; exact f2
+  | deleteSub sid' =>
+    simp only [gstep] at h; cases h
+    unfold deleteSub
+    split
+    · obtain ⟨i1, i2⟩ := hi
+      refine ⟨fun sid => ?_, fun sid hle => ?_⟩
+      · obtain ⟨c1, c2⟩ := i1 sid
+        by_cases hs : sid = sid'
+        · subst hs
+          refine ⟨?_, fun s' hs' => ?_⟩
+          · simp only [inSess] at c1 ⊢
+            rw [notifsOf_filter_ne]; simp only [if_true, List.append_nil]
+            rw [← List.append_assoc, List.map_append] at c1
+            exact chain_prefix _ _ _ c1
+          · simp only [] at hs'; rw [getSub_filter_ne] at hs'; simp at hs'
+        · refine ⟨?_, fun s' hs' => ?_⟩
+          · simp only [inSess] at c1 ⊢; rw [notifsOf_filter_ne]; simp only [hs, if_false]; exact c1
+          · simp only [] at hs' ⊢
+            rw [getSub_filter_ne] at hs'; simp only [hs, if_false] at hs'
+            simp only [inSess]; rw [notifsOf_filter_ne]; simp only [hs, if_false]
+            exact c2 s' hs'
+      · obtain ⟨f1, f2⟩ := i2 sid hle
+        refine ⟨by simp only []; rw [getSub_filter_ne]; split <;> simp [f1], ?_⟩
+        rw [flow_eq] at f2 ⊢
+        simp only [inSess] at f2 ⊢
+        rw [notifsOf_filter_ne]
+        split
+        · simp at f2 ⊢; exact ⟨f2.1, f2.2.1⟩
+        · exact f2
+    · exact hi
+  | setPublishing sid' e =>
+    simp only [gstep] at h; cases h
+    unfold setPublishing
+    split
+    · refine INV_of_frame g _ hi (fun sid => ?_) (fun sid s' hs' => ?_) (fun sid hn => ?_) rfl
+      · simp only [inSess]; rw [notifsOf_map]
+        · intro s; split <;> rfl
+        · intro s; split <;> rfl
+      · simp only [] at hs'
+        rw [getSub_map _ _ (by intro s; split <;> rfl)] at hs'
+        cases hg : getSub g.ss.subs sid with
+        | none => rw [hg] at hs'; cases hs'
+        | some s => rw [hg] at hs'; simp at hs'; subst hs'; exact ⟨s, rfl, by split <;> rfl, by split <;> rfl⟩
+      · simp only []; rw [getSub_map _ _ (by intro s; split <;> rfl), hn]; rfl
+    · exact hi
+  | createItem sid' hd' n q d m sp =>
+    simp only [gstep] at h; cases h
+    unfold createItem
+    split
+    · exact hi
+    · rename_i s hs
+      have hk : s.id = sid' := getSub_id _ _ _ hs
+      have frame : ∀ s2 : Subn, s2.id = s.id → s2.notifs = s.notifs → s2.lastSeq = s.lastSeq →
+          s2.seqNext = s.seqNext → INV { g with ss := { g.ss with subs := updSub g.ss.subs s2 } } := by
+        intro s2 e1 e2 e3 e4
+        refine INV_of_frame g _ hi (fun sid => ?_) (fun sid s' hs' => ?_) (fun sid hn => ?_) rfl
+        · simp only [inSess]; rw [notifsOf_updSub_same _ _ _ _ _ hs e1 e2]
+        · simp only [] at hs'
+          rw [getSub_updSub] at hs'
+          split at hs'
+          · rename_i hsid
+            split at hs'
+            · cases hs'
+              exact ⟨s, by rw [hsid, e1, hk]; exact hs, e3, e4⟩
+            · cases hs'
+          · exact ⟨s', hs', rfl, rfl⟩
+        · simp only []
+          rw [getSub_updSub]
+          split
+          · rename_i hsid
+            have : hasSub g.ss.subs sid = false := (getSub_none_iff _ _).mp hn
+            simp [this]
+          · exact hn
+      simp only []
+      split
+      · exact frame _ rfl rfl rfl rfl
+      · exact frame _ rfl rfl rfl rfl
+  | deleteItem sid' iid =>
+    simp only [gstep] at h; cases h
+    unfold deleteItem
+    split
+    · exact hi
+    · rename_i s hs
+      have hk : s.id = sid' := getSub_id _ _ _ hs
+      have frame : ∀ s2 : Subn, s2.id = s.id → s2.notifs = s.notifs → s2.lastSeq = s.lastSeq →
+          s2.seqNext = s.seqNext → INV { g with ss := { g.ss with subs := updSub g.ss.subs s2 } } := by
+        intro s2 e1 e2 e3 e4
+        refine INV_of_frame g _ hi (fun sid => ?_) (fun sid s' hs' => ?_) (fun sid hn => ?_) rfl
+        · simp only [inSess]; rw [notifsOf_updSub_same _ _ _ _ _ hs e1 e2]
+        · simp only [] at hs'
+          rw [getSub_updSub] at hs'
+          split at hs'
+          · rename_i hsid
+            split at hs'
+            · cases hs'
+              exact ⟨s, by rw [hsid, e1, hk]; exact hs, e3, e4⟩
+            · cases hs'
+          · exact ⟨s', hs', rfl, rfl⟩
+        · simp only []
+          rw [getSub_updSub]
+          split
+          · have : hasSub g.ss.subs sid = false := (getSub_none_iff _ _).mp hn
+            simp [this]
+          · exact hn
+      simp only []
+      split
+      · exact frame _ rfl rfl rfl rfl
+      · exact frame _ rfl rfl rfl rfl
+  | write n v =>
+    simp only [gstep] at h; cases h
+    exact INV_of_frame g _ hi (fun _ => rfl) (fun sid s' hs' => ⟨s', hs', rfl, rfl⟩) (fun _ hn => hn) rfl
+  | timer dt =>
+    simp only [gstep] at h
+    split at h
+    · rename_i ss' ht
+      cases h
+      obtain ⟨i1, i2⟩ := hi
+      have hnx : ss'.nextSubId = g.ss.nextSubId := sessTick_next c true { g.ss with now := g.ss.now + dt } ss' ht
+      refine ⟨fun sid => (sessTick_num c true _ ss' sid _ ht (i1 sid)).1, fun sid hle => ?_⟩
+      obtain ⟨f1, f2⟩ := i2 sid (by rw [← hnx]; exact hle)
+      obtain ⟨q1, q2⟩ := (sessTick_num c true _ ss' sid _ ht (i1 sid)).2 f1
+      refine ⟨q1, ?_⟩
+      rw [flow_eq] at f2 ⊢
+      simp only []; rw [q2]; exact f2
+    · cases h
+  | publish rid acks =>
+    have core : ∀ (ss' : Sess) (r : PubRes) (acc : List Nat), publish c g.ss rid acks = .ok (ss', r) →
+        INV { g with ss := ss', accepted := acc } := by
+      intro ss' r acc hp
+      obtain ⟨i1, i2⟩ := hi
+      have hnx := publish_next c _ _ rid acks r hp
+      refine ⟨fun sid => (publish_num c _ _ rid acks r sid _ hp (i1 sid)).1, fun sid hle => ?_⟩
+      obtain ⟨f1, f2⟩ := i2 sid (by rw [← hnx]; exact hle)
+      obtain ⟨q1, q2⟩ := (publish_num c _ _ rid acks r sid _ hp (i1 sid)).2 f1
+      refine ⟨q1, ?_⟩
+      rw [flow_eq] at f2 ⊢
+      simp only []; rw [q2]; exact f2
+    simp only [gstep] at h
+    split at h
+    · rename_i ss' hp; cases h; exact core ss' _ _ hp
+    · rename_i ss' r hne hp; cases h; exact core ss' r _ hp
+    · cases h
+  | republish sid' seq =>
+    simp only [gstep] at h; cases h
+    unfold republish
+    split
+    · refine INV_of_frame g _ hi (fun sid => ?_) (fun sid s' hs' => ?_) (fun sid hn => ?_) rfl
+      · simp only [inSess]; rw [notifsOf_map]
+        · intro s; split <;> rfl
+        · intro s; split <;> rfl
+      · simp only [] at hs'
+        rw [getSub_map _ _ (by intro s; split <;> rfl)] at hs'
+        cases hg : getSub g.ss.subs sid with
+        | none => rw [hg] at hs'; cases hs'
+        | some s => rw [hg] at hs'; simp at hs'; subst hs'; exact ⟨s, rfl, by split <;> rfl, by split <;> rfl⟩
+      · simp only []; rw [getSub_map _ _ (by intro s; split <;> rfl), hn]; rfl
+    · exact hi
+  | take =>
+    simp only [gstep, takeResponses] at h; cases h
+    obtain ⟨i1, i2⟩ := hi
+    have hflow : ∀ sid, sentMsgs (g.sent ++ g.ss.resps.map fun r => (r.subId, r.msg)) sid ++
+        inSess { g.ss with resps := [] } sid = sentMsgs g.sent sid ++ inSess g.ss sid := by
+      intro sid
+      simp [sentMsgs, respMsgs, inSess, List.filter_append, List.filter_map, Function.comp_def, List.map_map]
+    refine ⟨fun sid => ?_, fun sid hle => ?_⟩
+    · obtain ⟨c1, c2⟩ := i1 sid
+      refine ⟨by simp only []; rw [hflow]; exact c1, fun s hs => ?_⟩
+      simp only [] at hs ⊢
+      rw [hflow]; exact c2 s hs
+    · obtain ⟨f1, f2⟩ := i2 sid hle
+      refine ⟨f1, ?_⟩
+      rw [flow_eq] at f2 ⊢
+      simp only []; rw [hflow]; exact f2
+
+theorem INV_init (nodes : List (Nat × Nat)) : INV (ginit nodes) := by
+  refine ⟨fun sid => ⟨by simp [ginit, init, sentMsgs, inSess, respMsgs, notifsOf, getSub, chain], ?_⟩, fun sid _ => ?_⟩
+  · intro s hs; simp [ginit, init, getSub] at hs
+  · simp [ginit, init, getSub, flow, sentMsgs, respMsgs, notifsOf]
+
+theorem grun_INV (c : Cfg) (maxQ : Nat) (ops : List Op) (g g' : G) (hi : INV g)
+    (h : grun c maxQ g ops = some g') : INV g' := by
+  induction ops generalizing g with
+  | nil => simp only [grun] at h; cases h; exact hi
+  | cons op ops ih =>
+    simp only [grun] at h
+    split at h
+    · rename_i g1 hs; exact ih g1 (gstep_INV c maxQ g g1 op hi hs) h
+    · cases h
+
+/-- **`seq_increasing`, over every history** from the empty session: for every subscription id the
+notification messages handed to the transport carry the sequence numbers 1, 2, 3, … in this order
+(strictly increasing, consecutive), and they continue through the queued responses and the
+subscription's own queue. -/
+theorem seq_increasing (c : Cfg) (maxQ : Nat) (nodes : List (Nat × Nat)) (ops : List Op) (g' : G)
+    (h : grun c maxQ (ginit nodes) ops = some g') (sid : Nat) :
+    chain 0 ((sentMsgs g'.sent sid).map (·.seq)) ∧ chain 0 ((flow g' sid).map (·.seq)) := by
+  obtain ⟨i1, _⟩ := grun_INV c maxQ ops _ g' (INV_init nodes) h
+  obtain ⟨c1, _⟩ := i1 sid
+  refine ⟨?_, by rw [flow_eq]; exact c1⟩
+  rw [List.map_append] at c1
+  exact chain_prefix _ _ _ c1
+
+
+/-! ### items → notification -/
+
+/-- what one item hands over on a tick on which the publishing interval elapsed: its whole queue
+(oldest first) if it is a reporting item that has something to report, nothing otherwise -/
+def handsOver (nodes : List (Nat × Nat)) (now : Nat) (resend : Bool) (it : MItem) : List Entry :=
+  let r := itemTick nodes now true resend it
+  if r.2 = .report then entriesOf r.1.handle r.1.q.queue else []
+
+theorem drain_spec (q : C24.Item) :
+    (match C24.drain q with
+     | (q', some d) => (q'.queue, d)
+     | (q', none) => (q'.queue, [])) = ([], q.queue) := by
+  unfold C24.drain
+  cases h : q.queue with
+  | nil => simp [h]
+  | cons a l => simp [h]
+
+theorem drain_queue_empty (q : C24.Item) : (C24.drain q).1.queue = [] := by
+  unfold C24.drain
+  cases h : q.queue with
+  | nil => simp [h]
+  | cons a l => simp [h]
+
+/-- the item after such a tick -/
+def afterTick (nodes : List (Nat × Nat)) (now : Nat) (resend : Bool) (it : MItem) : MItem :=
+  let r := itemTick nodes now true resend it
+  if r.2 = .report then { r.1 with q := (C24.drain r.1.q).1 } else r.1
+
+/-- **items → notification**: on an elapsed interval the data change notification is built from exactly
+the queues of the reporting items (in item order, each queue oldest first) and those queues are empty
+afterwards (`afterTick`, `drain_queue_empty`) — nothing stays behind and nothing is invented at this link. -/
+theorem tickItems_hands_over (nodes : List (Nat × Nat)) (now : Nat) (resend : Bool) (items : List MItem) :
+    (tickItems nodes now true resend items).2 = items.flatMap (handsOver nodes now resend) ∧
+    (tickItems nodes now true resend items).1 = items.map (afterTick nodes now resend) := by
+  induction items with
+  | nil => simp [tickItems]
+  | cons it rest ih =>
+    obtain ⟨ih1, ih2⟩ := ih
+    simp only [tickItems, List.flatMap_cons, List.map_cons, ih1, ih2, handsOver, afterTick]
+    by_cases hr : (itemTick nodes now true resend it).2 = .report
+    · simp only [hr, and_self, if_true]
+      have := drain_spec (itemTick nodes now true resend it).1.q
+      cases hd : C24.drain (itemTick nodes now true resend it).1.q with
+      | mk q' o =>
+        rw [hd] at this
+        cases o with
+        | none => simp only [] at this; simp [← (Prod.mk.inj this).2, entriesOf]
+        | some d => simp only [] at this; simp [← (Prod.mk.inj this).2]
+    · simp [hr]
+
+theorem afterTick_reported_empty (nodes : List (Nat × Nat)) (now : Nat) (resend : Bool) (it : MItem)
+    (h : (itemTick nodes now true resend it).2 = .report) : (afterTick nodes now resend it).q.queue = [] := by
+  simp only [afterTick, h, if_true]
+  exact drain_queue_empty _
+
+/-- an item that follows the publishing interval and is in Reporting mode samples on every elapsed
+interval: a changed value is appended to its queue by the C24 `enqueue` (whose theorems say what an
+overflow keeps), and is handed over in the same tick -/
+theorem interval_item_reports (nodes : List (Nat × Nat)) (now : Nat) (it : MItem) (v : Nat)
+    (hm : it.mode = .reporting) (hs : it.sampling = none) (hv : lookup nodes it.node = some v)
+    (hc : it.last ≠ some v) :
+    (itemTick nodes now true false it).2 = .report ∧
+    (itemTick nodes now true false it).1.q = C24.enqueue it.q v ∧
+    (itemTick nodes now true false it).1.last = some v := by
+  cases hl : it.last with
+  | none => simp [itemTick, hm, hs, checkValue, hv, hl]
+  | some l =>
+    have hne : ¬ v = l := by intro e; subst e; exact hc hl
+    simp [itemTick, hm, hs, checkValue, hv, hl, hne]
+
 
 /-! ### non-vacuity, the defect that was repaired -/
 
